@@ -59,8 +59,13 @@ exit $rc
 '''
 
 CFG = dict(
-    gen=[dict(tool="facts", mode="c13.locks", out="LockFacts.lean", args=[])],
-    theorems=["lock_facts_well_locked", "mutex_invariant", "linearizable",
+    gen=[dict(tool="facts", mode="c13.locks", out="LockFacts.lean", args=[]),
+         # the sequential operations inside the critical sections are C11's model: its regenerated skeleton is re-checked here too
+         dict(tool="facts", mode="c11.skeleton", out="NodeSkeleton.lean", args=[])],
+    facts_files=["c11.go"],
+    modules=["PolyVerif.Props.C13", "PolyVerif.Props.C11Src"],
+    theorems=["PolyVerif.C11.outdated_from_source", "PolyVerif.C11.process_from_source",
+              "lock_facts_well_locked", "mutex_invariant", "linearizable",
               "programs_correct_all", "prog_refines_atomic", "prog_linearizable", "model_version_regular",
               "model_version_counts_updates",
               "fine_refines_atomic", "fine_linearizable", "programs_correct", "critical_section_atomic",
